@@ -850,14 +850,38 @@ class TorConfig:
           KEYWORD.
         """
 
-        conf = parse_keywords(arg, multiline_values=False)
-        for (k, v) in conf.items():
-            # v will be txtorcon.DEFAULT_VALUE already from
-            # parse_keywords if it was unspecified
+        changed = OrderedDict()  # keyword -> list of values (maybe empty)
+        for line in arg.split('\n'):
+            if line.strip() in ('', 'OK'):
+                continue
+            if '=' in line:
+                k, v = line.split('=', 1)
+                changed.setdefault(k, []).append(v)
+            else:
+                changed.setdefault(line.strip(), [])
+
+        defaults = self.__dict__['_defaults']
+        for (k, values) in changed.items():
             real_name = self._find_real_name(k)
-            if real_name in self.parsers:
-                v = self.parsers[real_name].parse(v)
-            self.config[real_name] = v
+            parser = self.parsers.get(real_name, None)
+            is_list = real_name in self.list_parsers or \
+                (parser is not None and is_list_config_type(parser.__class__))
+            if is_list:
+                # list-valued options stay tracked lists, however many
+                # values Tor reports
+                if not values:
+                    values = defaults.get(real_name, [])
+                    if not isinstance(values, list):
+                        values = [values]
+                if parser is not None:
+                    values = parser.parse(list(values))
+                self.config[real_name] = _ListWrapper(
+                    list(values), functools.partial(self.mark_unsaved, real_name))
+            else:
+                v = values[-1] if values else defaults.get(real_name, DEFAULT_VALUE)
+                if parser is not None and v != DEFAULT_VALUE:
+                    v = parser.parse(v)
+                self.config[real_name] = v
 
     def bootstrap(self, arg=None):
         '''
@@ -1056,6 +1080,8 @@ class TorConfig:
                 if v == DEFAULT_VALUE or v == 'auto':
                     try:
                         initial = defaults[name[:-5]]
+                        if not isinstance(initial, list):
+                            initial = [initial]
                     except KeyError:
                         default_key = '__{}'.format(name[:-5])
                         default = yield self.protocol.get_conf_single(default_key)
@@ -1095,6 +1121,8 @@ class TorConfig:
                 parsed = self.parsers[rn].parse(v)
                 if parsed == [DEFAULT_VALUE]:
                     parsed = defaults.get(rn, [])
+                    if not isinstance(parsed, list):
+                        parsed = [parsed]
                 self.config[rn] = _ListWrapper(
                     parsed, functools.partial(self.mark_unsaved, rn))
 
